@@ -246,12 +246,48 @@ def handleProv : List String → String
     | _, _ => "bad-op"
   | other => handleSite other
 
+/-! ### `srvhost`: host matching through the provisioned server (caddy.Run: ProvisionMatchers,
+    automatic HTTPS phase 1, Server.ServeHTTP) with placeholder-bearing entries -/
+
+def kEnvA : Bytes := str "env.C06_A"
+def kEnvB : Bytes := str "env.C06_B"
+def kHdr : Bytes := str "http.request.header.X-T"
+
+/-- braces of an entry are exactly placeholders with one of the three keys -/
+def bracesOk : Nat → Bytes → Bool
+  | 0, s => s.isEmpty
+  | _ + 1, [] => true
+  | fuel + 1, c :: r =>
+    if c = cBrace then
+      match takeKey r with
+      | some (k, rest) => (k == kEnvA || k == kEnvB || k == kHdr) && bracesOk fuel rest
+      | none => false
+    else if c = cRBrace then false
+    else hostTokByte c && bracesOk fuel r
+
+def srvReqHostByte (c : UInt8) : Bool := hostTokByte c || c == cColon || c == cLBr || c == cRBr
+
+def handleSrv : List String → String
+  | ["srvhost", entries, envA, envB, hdr, rhost] =>
+    match parseList entries, Hex.decode envA, Hex.decode envB, Hex.decode hdr, Hex.decode rhost with
+    | some l, some a, some b, some x, some h =>
+      if !(l.all (fun e => bracesOk e.length e && decide (e.length ≤ 255)) && a.all hostTokByte && b.all hostTokByte &&
+           x.all hostTokByte && h.all srvReqHostByte) then "ood"
+      else match srvHostCase largeThreshold l
+          (fun k => if k == kEnvA then a else if k == kEnvB then b else if k == kHdr then x else [])
+          (fun k => (k == kEnvA && a.isEmpty) || (k == kEnvB && b.isEmpty)) h with
+        | .dup => "err:dup"
+        | .phase1Err => "err:phase1"
+        | .res r => showBool r
+    | _, _, _, _, _ => "bad-op"
+  | other => handleProv other
+
 def handle : List String → String
   | ["pathpair", kind, pats, p1, e1, p2, e2] =>
     match parseList pats, Hex.decode p1, Hex.decode e1, Hex.decode p2, Hex.decode e2 with
     | some l, some p1, some e1, some p2, some e2 => handlePair kind l p1 e1 p2 e2
     | _, _, _, _, _ => "bad-op"
-  | other => handleProv other
+  | other => handleSrv other
 
 /-! ### the counter-examples proved in `Witness.lean` -/
 
